@@ -885,7 +885,7 @@ Definition run_command (name : list Z) (keys : list Z) (mem_kind : bool) (max_en
     | [] => Panic 301                          (* key[0] of an empty Caller() *)
     | k0 :: _ =>
       let e := h_skip_save e in
-      let q := quote k0 in
+      let q := if 128 <=? k0 then [k0] else quote k0 in     (* output-meta off; the same with it on for printable keys *)
       let e := c_insert_at e q in
       Ok (c_move (c_move e (- zlen q)) (zlen q))
     end
